@@ -632,7 +632,11 @@ func (s *Session) wakeUpPeer() error {
 		asyncNotify(s.notifyContinueWriteCh)
 	} else {
 		//slow path
-		s.sendCh <- sendReady{nil, pollingEventWithVersion[s.communicationVersion], nil}
+		select {
+		case s.sendCh <- sendReady{nil, pollingEventWithVersion[s.communicationVersion], nil}:
+		case <-s.shutdownCh:
+			return s.shutdownErr
+		}
 	}
 	return nil
 }
@@ -721,7 +725,11 @@ func (s *Session) hotRestart(epoch uint64, event eventType) error {
 		asyncNotify(s.notifyContinueWriteCh)
 	} else {
 		//slow path
-		s.sendCh <- sendReady{nil, data, nil}
+		select {
+		case s.sendCh <- sendReady{nil, data, nil}:
+		case <-s.shutdownCh:
+			return s.shutdownErr
+		}
 	}
 
 	return nil
